@@ -2,6 +2,7 @@ package oracle
 
 import (
 	"bytes"
+	"strings"
 
 	"tqsim/model"
 	"tqsim/plan"
@@ -43,7 +44,7 @@ func (c *ctx) probeConn(i int) {
 				closed = true // closed by the server on its own, not by the end-of-run shutdown
 			}
 		case "read-end":
-			if e.S == "i/o timeout" && e.Seq < drain {
+			if strings.HasSuffix(e.S, "i/o timeout") && e.Seq < drain {
 				deadlineFired = true
 			}
 		}
@@ -145,12 +146,26 @@ func (c *ctx) probeConn(i int) {
 					c.v("C19/mismatch-processed", "conn %d: packet op %d %s has the key-mismatch signature but a handler ran", id, pr.Op, hstr(pr.H))
 				case "truncated":
 					c.v("C05/short-packet-dispatched", "conn %d: stream ended inside packet op %d %s but a handler ran with %s body %s", id, pr.Op, hstr(pr.H), hstr(inv.H), trunc(inv.Body))
+					c.v("C04/value-from-truncated-input", "conn %d: the stream ended inside packet op %d %s, yet the reader returned a packet (the handler saw %s body %s): bytes that were never in the input", id, pr.Op, hstr(pr.H), hstr(inv.H), trunc(inv.Body))
 				case "oversize":
 					c.v("C05/oversize-dispatched", "conn %d: header announcing %d bytes reached a handler", id, pr.H.Length)
 				}
 			}
 			if pr.Kind == "badsecret" {
 				expReplies = append(expReplies, pr)
+			}
+			if pr.Kind == "truncated" {
+				want := 0
+				for _, x := range expReplies {
+					if x.Reply {
+						want++
+					}
+				}
+				if len(replies) > want && len(cs.WFault) == 0 {
+					for _, pid := range []string{"C04", "C05"} {
+						c.v(pid+"/truncated-packet-answered", "conn %d: the stream ended inside packet op %d %s, yet the server wrote %d packets where %d answer the complete packets before it: a packet was made from bytes that never arrived", id, pr.Op, hstr(pr.H), len(replies), want)
+					}
+				}
 			}
 			if pr.Kind == "oversize" && quiet && len(c.p.Park) == 0 {
 				c.oversizeTiming(id, pr, closeStep)
